@@ -90,6 +90,37 @@ def _eval(c):
         return c, None, f"{type(e).__name__}: {e}"
 
 
+def run_rule2_case(c):
+    """rule_2_of_do_calculus_applies against its definition: (Y _||_ z | X, Z - z) in G with the edges into X and out of z removed
+    (d-separation of the oracle: networkx on the canonical DAG)."""
+    dsl = concrete.y0mod("y0.dsl")
+    idc = concrete.y0mod("y0.algorithm.identify.id_c")
+    ut = concrete.y0mod("y0.algorithm.identify.utils")
+    V = dsl.Variable
+    vs, d, u = c["nodes"], c["directed"], c["undirected"]
+    g = oracles.build(vs, d, u, random.Random(c["seed"]))
+    ident = ut.Identification.from_parts(outcomes={V(y) for y in c["Y"]}, treatments={V(x) for x in c["X"]}, conditions={V(z) for z in c["Z"]}, graph=g)
+    for z in c["Z"]:
+        try:
+            got = bool(idc.rule_2_of_do_calculus_applies(ident, V(z)))
+        except Exception as e:
+            return f"rule_2_of_do_calculus_applies(.., {z}) raised {type(e).__name__}: {e}"
+        d2 = [(a, b) for a, b in d if b not in c["X"] and a != z]
+        u2 = [(a, b) for a, b in u if a not in c["X"] and b not in c["X"]]
+        cond = set(c["X"]) | (set(c["Z"]) - {z})
+        want = all(oracles.d_separated(vs, d2, u2, y, z, cond) for y in c["Y"])
+        if got != want:
+            return f"rule 2 for condition {z}: library says {got}, definition gives {want}"
+    return None
+
+
+def _eval_r2(c):
+    try:
+        return c, run_rule2_case(c), None
+    except Exception as e:
+        return c, None, f"{type(e).__name__}: {e}"
+
+
 def extra(rep, repo, registry, known_open):
     t0 = time.time()
     rng = random.Random(repr((rep.seed, "C03")))
@@ -107,6 +138,24 @@ def extra(rep, repo, registry, known_open):
     rep.extra_parts.append({"name": "idc-vs-scm-oracle", "kind": "bounded", "decides": True, "evaluations": len(cases),
                             "scope": "every ADMG on 2-3 nodes x every conditional query, textbook graphs, sampled 4-6 node ADMGs; exact SCM evaluation",
                             "failures": len(fails), "wall_s": round(time.time() - t0, 1)})
+    # rule 2 against its definition (the contract's verdict clause is undecided in the quick tier: this is its bounded stand-in)
+    r2_fails = []
+    with mp.get_context("fork").Pool(16) as pool:
+        for c, why, err in pool.imap_unordered(_eval_r2, cases, chunksize=16):
+            if err:
+                errs.append(err)
+            elif why:
+                r2_fails.append((c, why))
+    if errs:
+        rep.errors.append(f"C03 rule-2 cross-check: {len(errs)} evaluation errors, e.g. {errs[0]}")
+    rep.extra_parts.append({"name": "rule-2-vs-definition", "kind": "bounded", "decides": True, "evaluations": len(cases),
+                            "scope": "the same queries: rule_2_of_do_calculus_applies for every condition against d-separation (networkx, canonical DAG) in the mutilated graph",
+                            "failures": len(r2_fails)})
+    if r2_fails and not fails:
+        c, why = min(r2_fails, key=lambda f: (len(f[0]["nodes"]), len(f[0]["directed"]) + len(f[0]["undirected"])))
+        path = pipeline.write_replay("C03", "bounded.rule2", {"property": "C03", "obligation": "y0.algorithm.identify.id_c.rule_2_of_do_calculus_applies/bounded.verdict",
+                                                             "case": c, "why": why, "rule2": True})
+        rep.violations.append(("y0.algorithm.identify.id_c.rule_2_of_do_calculus_applies/bounded.verdict", path, ""))
     if fails:
         c, why = min(fails, key=lambda f: (len(f[0]["nodes"]), len(f[0]["directed"]) + len(f[0]["undirected"])))
         path = pipeline.write_replay("C03", "bounded.idc", {"property": "C03", "obligation": "y0.algorithm.identify.id_c.idc/bounded.value", "case": c, "why": why})
@@ -115,7 +164,7 @@ def extra(rep, repo, registry, known_open):
 
 
 def replay(payload, path):
-    why = run_case(payload["case"])
+    why = run_rule2_case(payload["case"]) if payload.get("rule2") else run_case(payload["case"])
     print(json.dumps({"case": payload["case"], "now": why}, indent=1))
     if why:
         print(f"VIOLATION property=C03 replay={path}")
